@@ -576,3 +576,94 @@ func maximalTaskfile() *Y {
 		)),
 	)
 }
+
+// maximalIncluded is maximalTaskfile without the keys only a root Taskfile may have.
+func maximalIncluded() *Y {
+	m := maximalTaskfile()
+	out := &Y{K: KMap}
+	for _, kv := range m.M {
+		if kv.K.V == "includes" || kv.K.V == "dotenv" {
+			continue
+		}
+		out.M = append(out.M, kv)
+	}
+	return out
+}
+
+// seqElemPaths lists the positions that are elements of a sequence.
+func seqElemPaths(y *Y, prefix []int, out *[][]int) {
+	switch y.K {
+	case KSeq:
+		for i, s := range y.S {
+			p := append(append([]int(nil), prefix...), i)
+			*out = append(*out, p)
+			seqElemPaths(s, p, out)
+		}
+	case KMap:
+		for i, kv := range y.M {
+			seqElemPaths(kv.V, append(append([]int(nil), prefix...), i), out)
+		}
+	}
+}
+
+// includeShapes: how the mutated / random file is reached from the root.
+var includeShapes = []string{"namespaced", "flatten", "depth2", "depth2-flatten"}
+
+// includeTrees puts [inc] behind a root Taskfile: directly (namespaced or flattened) or
+// through an intermediate file (depth 2), so that Tasks.Merge deep-copies its tasks once or twice.
+func includeTrees(shape string, inc *Y) map[string]*Y {
+	rootTask := P("tasks", Map(P("root", Map(P("cmds", Seq(Str("echo root")))))))
+	incl := func(ns, file string, flatten bool) *Y {
+		if flatten {
+			return Map(P(ns, Map(P("taskfile", Str(file)), P("flatten", Bool(true)))))
+		}
+		return Map(P(ns, Str(file)))
+	}
+	switch shape {
+	case "namespaced":
+		return map[string]*Y{"Taskfile.yml": Map(P("version", Str("3")), P("includes", incl("a", "inc1.yml", false)), rootTask), "inc1.yml": inc}
+	case "flatten":
+		return map[string]*Y{"Taskfile.yml": Map(P("version", Str("3")), P("includes", incl("a", "inc1.yml", true)), rootTask), "inc1.yml": inc}
+	case "depth2":
+		return map[string]*Y{
+			"Taskfile.yml": Map(P("version", Str("3")), P("includes", incl("a", "mid.yml", false)), rootTask),
+			"mid.yml":      Map(P("version", Str("3")), P("includes", incl("b", "inc1.yml", false)), P("tasks", Map(P("mid", Str("echo mid"))))),
+			"inc1.yml":     inc}
+	default:
+		return map[string]*Y{
+			"Taskfile.yml": Map(P("version", Str("3")), P("includes", incl("a", "mid.yml", true)), rootTask),
+			"mid.yml":      Map(P("version", Str("3")), P("includes", incl("b", "inc1.yml", true)), P("tasks", Map(P("mid", Str("echo mid"))))),
+			"inc1.yml":     inc}
+	}
+}
+
+// includedFile is a random Taskfile meant to be included: always version 3, no dotenv, plain task names.
+func (g *gen) includedFile() *Y {
+	kvs := []KV{P("version", Str("3"))}
+	if g.chance(0.4) {
+		kvs = append(kvs, P("vars", g.vars()))
+	}
+	if g.chance(0.15) {
+		kvs = append(kvs, P("env", g.vars()))
+	}
+	kvs = append(kvs, P("tasks", g.tasks(g.names(0))))
+	return Map(kvs...)
+}
+
+// concurrencyDoc is a valid Taskfile with n wildcard tasks and a task whose n dependencies are
+// all resolved through the wildcard matcher at the same time; token makes the names unique so that
+// no earlier document has warmed anything up in the worker process.
+func concurrencyDoc(token string, n int) (*Y, []string) {
+	var tasks []KV
+	var deps []*Y
+	var calls []string
+	for i := 0; i < n; i++ {
+		name := fmt.Sprintf("w%s-%d-*", token, i)
+		tasks = append(tasks, P(name, Map(P("cmds", Seq(Str("true"))), P("silent", Bool(true)))))
+		call := fmt.Sprintf("w%s-%d-x%d", token, i, i)
+		deps = append(deps, Str(call))
+		calls = append(calls, call)
+	}
+	tasks = append(tasks, P("all", Map(P("deps", Seq(deps...)), P("cmds", Seq(Str("true"))))))
+	return Map(P("version", Str("3")), P("tasks", Map(tasks...))), calls
+}
